@@ -62,6 +62,16 @@ pub mod tn {
         { unimplemented!() }
     }
 
+    pub trait IntoTensorData: Sized { spec fn td_flat(self) -> Seq<Fl>; spec fn td_shape(self) -> Seq<usize>; }
+    impl IntoTensorData for TensorData {
+        open spec fn td_flat(self) -> Seq<Fl> { self.flat }
+        open spec fn td_shape(self) -> Seq<usize> { self.shape }
+    }
+    impl<'a> IntoTensorData for &'a [Fl] {
+        open spec fn td_flat(self) -> Seq<Fl> { self@ }
+        open spec fn td_shape(self) -> Seq<usize> { seq![self@.len() as usize] }
+    }
+
     #[verifier::external_body]
     #[verifier::accept_recursive_types(B)]
     #[verifier::accept_recursive_types(K)]
@@ -110,14 +120,14 @@ pub mod tn {
         { unimplemented!() }
         #[verifier::external_body]
         pub fn clone(&self) -> (r: Self) ensures r == *self { unimplemented!() }
-        /// `from_data(TensorData::new(values, [n, d]))`: row-major
+        /// `from_data(TensorData::new(values, [n, d]), dev)` (row-major) or `from_data(slice, dev)` (1-D)
         #[verifier::external_body]
-        pub fn from_data(td: TensorData, dev: &B::Device) -> (r: Self)
-            requires td.shape.len() == D
+        pub fn from_data<X: IntoTensorData>(x: X, dev: &B::Device) -> (r: Self)
+            requires x.td_shape().len() == D
             ensures
-                D == 2 ==> tdim2(r) == (td.shape[0] as int, td.shape[1] as int) && rect(v2(r), td.shape[0] as int, td.shape[1] as int)
-                    && forall |i: int, j: int| 0 <= i < td.shape[0] && 0 <= j < td.shape[1] ==> (#[trigger] v2(r)[i][j]) == val(td.flat[i * td.shape[1] + j]),
-                D == 1 ==> v1(r) == xrs(td.flat),
+                D == 2 ==> tdim2(r) == (x.td_shape()[0] as int, x.td_shape()[1] as int) && rect(v2(r), x.td_shape()[0] as int, x.td_shape()[1] as int)
+                    && forall |i: int, j: int| 0 <= i < x.td_shape()[0] && 0 <= j < x.td_shape()[1] ==> (#[trigger] v2(r)[i][j]) == val(x.td_flat()[i * x.td_shape()[1] + j]),
+                D == 1 ==> v1(r) == xrs(x.td_flat()),
         { unimplemented!() }
         #[verifier::external_body]
         pub fn zeros_like(t: &Self) -> (r: Self) ensures D == 2 ==> tdim2(r) == tdim2(*t), v2(r).len() == v2(*t).len(), v1(r).len() == v1(*t).len() { unimplemented!() }
@@ -168,18 +178,24 @@ pub mod tn {
             requires D == 2, dim == 0, D2 == 3
             ensures v3(r) == seq![v2(self)]
         { unimplemented!() }
-        /// `empty(shape)`: contents arbitrary
+        /// `empty(shape, dev)`: contents arbitrary
         #[verifier::external_body]
         pub fn empty(shape: [usize; D], dev: &B::Device) -> (r: Self)
-            ensures D == 3 ==> rect3(v3(r), shape@[0] as int, shape@[1] as int, shape@[2] as int)
+            ensures D == 3 ==> rect3(v3(r), shape@[0] as int, shape@[1] as int, shape@[2] as int),
+                D == 2 ==> tdim2(r) == (shape@[0] as int, shape@[1] as int)
         { unimplemented!() }
-        /// `slice_assign([a..a+1, 0..n, 0..d], value)` on a [s, n, d] tensor with value of shape [1, n, d]: slab a replaced
+        /// `slice_assign(ranges, value)` replacing one slab: on a [s, n, d] tensor `[a..a+1, 0..n, 0..d]` with a [1, n, d] value;
+        /// on an [n, d] tensor `[a..a+1, 0..d]` with a [1, d] value (burn panics when a range is out of bounds)
         #[verifier::external_body]
-        pub fn slice_assign(self, ranges: [core::ops::Range<usize>; 3], value: Self) -> (r: Self)
-            requires D == 3, ranges@[0].end == ranges@[0].start + 1, ranges@[0].start < v3(self).len(), ranges@[1].start == 0, ranges@[2].start == 0,
-                v3(value).len() == 1, rect(v3(value)[0], ranges@[1].end as int, ranges@[2].end as int),
-                rect(v3(self)[ranges@[0].start as int], ranges@[1].end as int, ranges@[2].end as int)
-            ensures v3(r) == v3(self).update(ranges@[0].start as int, v3(value)[0])
+        pub fn slice_assign(self, ranges: [core::ops::Range<usize>; D], value: Self) -> (r: Self)
+            requires D == 3 || D == 2,
+                D == 3 ==> ranges@[0].end == ranges@[0].start + 1 && ranges@[0].start < v3(self).len() && ranges@[1].start == 0 && ranges@[2].start == 0
+                    && v3(value).len() == 1 && rect(v3(value)[0], ranges@[1].end as int, ranges@[2].end as int)
+                    && rect(v3(self)[ranges@[0].start as int], ranges@[1].end as int, ranges@[2].end as int),
+                D == 2 ==> ranges@[0].end == ranges@[0].start + 1 && ranges@[0].start < tdim2(self).0 && ranges@[1].start == 0 && ranges@[1].end == tdim2(self).1
+                    && v2(value).len() == 1 && v2(value)[0].len() == tdim2(self).1,
+            ensures D == 3 ==> v3(r) == v3(self).update(ranges@[0].start as int, v3(value)[0]),
+                D == 2 ==> v2(r) == v2(self).update(ranges@[0].start as int, v2(value)[0]) && tdim2(r) == tdim2(self)
         { unimplemented!() }
         /// `permute([1, 0, 2])`: swaps the first two axes
         #[verifier::external_body]
@@ -234,5 +250,76 @@ pub mod tn {
         pub fn from_inner(t: Tensor<B::InnerBackend, D>) -> (r: Self) ensures v2(r) == v2(t), v1(r) == v1(t) { unimplemented!() }
         #[verifier::external_body]
         pub fn backward(&self) -> (g: Gradients<B>) ensures g_of(g) == (ad_leaf2(*self), ad_grad2(*self)), g1_of(g) == (ad_leaf1(*self), ad_grad1(*self)) { unimplemented!() }
+    }
+
+    // ---- 1-D operations used by src/nuts.rs ------------------------------------------------
+    /// an element extracted from a boolean tensor (`into_scalar()` then `.to_bool()`)
+    pub struct BoolElem { pub b: bool }
+    impl BoolElem { pub fn to_bool(self) -> (r: bool) ensures r == self.b { self.b } }
+    /// scalars that burn's `*_elem` / `*_scalar` methods accept
+    pub trait ElemLike: Sized { spec fn xr(&self) -> XR; }
+    impl ElemLike for Fl { open spec fn xr(&self) -> XR { val(*self) } }
+    impl ElemLike for i32 { open spec fn xr(&self) -> XR { XR::Fin(*self as real) } }
+    impl ElemLike for usize { open spec fn xr(&self) -> XR { XR::Fin(*self as real) } }
+
+    impl<B: Backend, const D: usize> Tensor<B, D> {
+        /// `sum()`: a 1-element tensor holding the sum of all elements (1-D use)
+        #[verifier::external_body]
+        pub fn sum(self) -> (r: Tensor<B, 1>) requires D == 1 ensures v1(r) == seq![vsum(v1(self))] { unimplemented!() }
+        /// `into_scalar()` of a 1-element tensor
+        #[verifier::external_body]
+        pub fn into_scalar(self) -> (r: Fl) requires v1(self).len() == 1 ensures val(r) == v1(self)[0] { unimplemented!() }
+        #[verifier::external_body]
+        pub fn greater_equal_elem<E: ElemLike>(self, e: E) -> (r: Tensor<B, D, Bool>)
+            ensures b1(r).len() == v1(self).len(), forall |i: int| 0 <= i < v1(self).len() ==> #[trigger] b1(r)[i] == xr_ge(v1(self)[i], e.xr())
+        { unimplemented!() }
+        #[verifier::external_body]
+        pub fn equal_elem<E: ElemLike>(self, e: E) -> (r: Tensor<B, D, Bool>)
+            ensures b1(r).len() == v1(self).len(), forall |i: int| 0 <= i < v1(self).len() ==> #[trigger] b1(r)[i] == xr_eq(v1(self)[i], e.xr())
+        { unimplemented!() }
+        #[verifier::external_body]
+        pub fn is_nan(self) -> (r: Tensor<B, D, Bool>)
+            ensures b1(r).len() == v1(self).len(), forall |i: int| 0 <= i < v1(self).len() ==> #[trigger] b1(r)[i] == (v1(self)[i] is NaN)
+        { unimplemented!() }
+        /// `unsqueeze()` of a [d] tensor to [1, d]
+        #[verifier::external_body]
+        pub fn unsqueeze<const D2: usize>(self) -> (r: Tensor<B, D2>) requires D == 1, D2 == 2 ensures v2(r) == seq![v1(self)], tdim2(r) == (1int, v1(self).len() as int) { unimplemented!() }
+        /// `Tensor::stack(list, 0)` of [n, d] tensors: [k, n, d] in list order (burn panics on unequal shapes)
+        #[verifier::external_body]
+        pub fn stack<const D2: usize>(ts: Vec<Tensor<B, D>>, dim: usize) -> (r: Tensor<B, D2>)
+            requires D == 2, D2 == 3, dim == 0, ts@.len() >= 1, forall |i: int| 0 <= i < ts@.len() ==> tdim2(#[trigger] ts@[i]) == tdim2(ts@[0])
+            ensures v3(r).len() == ts@.len(), forall |i: int| 0 <= i < ts@.len() ==> (#[trigger] v3(r)[i]) == v2(ts@[i])
+        { unimplemented!() }
+    }
+    impl<B: Backend, const D: usize> Tensor<B, D, Bool> {
+        #[verifier::external_body]
+        pub fn into_scalar(self) -> (r: BoolElem) requires b1(self).len() == 1 ensures r.b == b1(self)[0] { unimplemented!() }
+        #[verifier::external_body]
+        pub fn bool_or(self, o: Self) -> (r: Self) ensures b1(r).len() == b1(self).len(), forall |i: int| 0 <= i < b1(self).len() ==> #[trigger] b1(r)[i] == (b1(self)[i] || b1(o)[i]) { unimplemented!() }
+        #[verifier::external_body]
+        pub fn bool_not(self) -> (r: Self) ensures b1(r).len() == b1(self).len(), forall |i: int| 0 <= i < b1(self).len() ==> #[trigger] b1(r)[i] == !b1(self)[i] { unimplemented!() }
+        /// `any()`: a 1-element boolean tensor
+        #[verifier::external_body]
+        pub fn any(self) -> (r: Tensor<B, 1, Bool>) ensures b1(r).len() == 1, b1(r)[0] == (exists |i: int| 0 <= i < b1(self).len() && #[trigger] b1(self)[i]) { unimplemented!() }
+    }
+    impl<B: Backend, const D: usize> core::ops::Sub for Tensor<B, D> { type Output = Self; #[verifier::external_body] fn sub(self, o: Self) -> (r: Self) { unimplemented!() } }
+    impl<B: Backend, const D: usize> SubSpecImpl for Tensor<B, D> {
+        open spec fn obeys_sub_spec() -> bool { true }
+        open spec fn sub_req(self, o: Self) -> bool { true }
+        open spec fn sub_spec(self, o: Self) -> Self { t_of::<B, D>(vsub(v1(self), v1(o)), msub(v2(self), v2(o))) }
+    }
+    impl<B: Backend, const D: usize> core::ops::Mul for Tensor<B, D> { type Output = Self; #[verifier::external_body] fn mul(self, o: Self) -> (r: Self) { unimplemented!() } }
+    pub open spec fn mmul(a: M, b: M) -> M { Seq::new(a.len(), |i: int| vmul(a[i], b[i])) }
+    impl<B: Backend, const D: usize> MulSpecImpl for Tensor<B, D> {
+        open spec fn obeys_mul_spec() -> bool { true }
+        open spec fn mul_req(self, o: Self) -> bool { true }
+        open spec fn mul_spec(self, o: Self) -> Self { t_of::<B, D>(vmul(v1(self), v1(o)), mmul(v2(self), v2(o))) }
+    }
+    /// `tensor * scalar`
+    impl<B: Backend, const D: usize> core::ops::Mul<Fl> for Tensor<B, D> { type Output = Self; #[verifier::external_body] fn mul(self, o: Fl) -> (r: Self) { unimplemented!() } }
+    impl<B: Backend, const D: usize> MulSpecImpl<Fl> for Tensor<B, D> {
+        open spec fn obeys_mul_spec() -> bool { true }
+        open spec fn mul_req(self, o: Fl) -> bool { true }
+        open spec fn mul_spec(self, o: Fl) -> Self { t_of::<B, D>(vscale(v1(self), val(o)), mscale(v2(self), val(o))) }
     }
 }
